@@ -1507,8 +1507,7 @@ impl Vm {
       return signal;
     }
 
-    #[cfg(debug_assertions)]
-    let roots_before = self.gc().temp_roots();
+    let roots_before = self.gc.borrow().temp_roots();
 
     match native.environment() {
       NativeEnvironment::StackLess => match native.call(&mut Hooks::new(self), args) {
@@ -1523,8 +1522,14 @@ impl Vm {
           }
           ExecutionSignal::OkReturn
         },
-        Call::Err(LyError::Err(error)) => self.set_error(error),
-        Call::Err(LyError::Exit(code)) => self.set_exit(code),
+        Call::Err(LyError::Err(error)) => {
+          self.release_native_roots(roots_before);
+          self.set_error(error)
+        },
+        Call::Err(LyError::Exit(code)) => {
+          self.release_native_roots(roots_before);
+          self.set_exit(code)
+        },
       },
       NativeEnvironment::Normal => {
         // natives can call back into natives, str() of nested or self containing
@@ -1566,12 +1571,27 @@ impl Vm {
             }
             ExecutionSignal::OkReturn
           },
-          Call::Err(LyError::Err(error)) => self.set_error(error),
-          Call::Err(LyError::Exit(code)) => self.set_exit(code),
+          Call::Err(LyError::Err(error)) => {
+            self.release_native_roots(roots_before);
+            self.set_error(error)
+          },
+          Call::Err(LyError::Exit(code)) => {
+            self.release_native_roots(roots_before);
+            self.set_exit(code)
+          },
         }
       },
     }
   }}
+
+  /// A native that fails returns early, often through `?`, past the pop_roots that
+  /// pairs with what it rooted for the duration of the call. Release those roots here
+  fn release_native_roots(&mut self, roots_before: usize) {
+    let roots_now = self.gc.borrow().temp_roots();
+    if roots_now > roots_before {
+      self.pop_roots(roots_now - roots_before);
+    }
+  }
 
   /// call a laythe function setting it as the new call frame
   unsafe fn call_closure(&mut self, closure: ObjRef<Closure>, arg_count: u8) -> ExecutionSignal { unsafe {
